@@ -9,6 +9,179 @@ pub open spec fn kept_pieces<'a>(path: &'a str) -> Seq<&'a str> {
     slash_strs(path).filter(is_kept())
 }
 
+pub open spec fn first_slash(s: Seq<char>) -> int
+    decreases s.len()
+{
+    if s.len() == 0 { -1 } else if s[0] == '/' { 0 } else { let r = first_slash(s.skip(1)); if r < 0 { -1 } else { r + 1 } }
+}
+pub proof fn first_slash_props(s: Seq<char>)
+    ensures
+        first_slash(s) < s.len(),
+        first_slash(s) >= 0 ==> s[first_slash(s)] == '/' && forall|j: int| 0 <= j < first_slash(s) ==> s[j] != '/',
+        first_slash(s) < 0 ==> forall|j: int| 0 <= j < s.len() ==> s[j] != '/',
+    decreases s.len()
+{
+    if s.len() > 0 && s[0] != '/' {
+        first_slash_props(s.skip(1));
+        let r = first_slash(s.skip(1));
+        if r >= 0 {
+            assert(s.skip(1)[r] == s[r + 1]);
+            assert forall|j: int| 0 <= j < r + 1 implies s[j] != '/' by { if j > 0 { assert(s.skip(1)[j - 1] == s[j]); } }
+        } else {
+            assert forall|j: int| 0 <= j < s.len() implies s[j] != '/' by { if j > 0 { assert(s.skip(1)[j - 1] == s[j]); } }
+        }
+    }
+}
+/// str::split('/') on the characters: the pieces between slashes
+pub open spec fn slash_split(s: Seq<char>) -> Seq<Seq<char>>
+    decreases s.len()
+    via slash_split_dec
+{
+    let i = first_slash(s);
+    if i < 0 { seq![s] } else { seq![s.subrange(0, i)] + slash_split(s.subrange(i + 1, s.len() as int)) }
+}
+#[via_fn]
+proof fn slash_split_dec(s: Seq<char>) {
+    first_slash_props(s);
+}
+/// the pieces of `a/b` are the pieces of `a` followed by the pieces of `b`
+pub proof fn split_of_joined(a: Seq<char>, b: Seq<char>)
+    ensures slash_split(a + seq!['/'] + b) == slash_split(a) + slash_split(b)
+    decreases a.len()
+{
+    let s = a + seq!['/'] + b;
+    first_slash_props(a);
+    first_slash_props(s);
+    let i = first_slash(a);
+    if i < 0 {
+        // the first slash of s is the joining one
+        assert(s[a.len() as int] == '/');
+        assert(forall|j: int| 0 <= j < a.len() ==> s[j] == a[j]);
+        let k = first_slash(s);
+        assert(k == a.len()) by {
+            if k < 0 { assert(s[a.len() as int] != '/'); }
+            if 0 <= k < a.len() { assert(a[k] == '/'); }
+            if k > a.len() { assert(s[a.len() as int] != '/'); }
+        }
+        assert(s.subrange(0, k) =~= a);
+        assert(s.subrange(k + 1, s.len() as int) =~= b);
+    } else {
+        let k = first_slash(s);
+        assert(forall|j: int| 0 <= j < a.len() ==> s[j] == a[j]);
+        assert(k == i) by {
+            assert(s[i] == '/');
+            if k < 0 { assert(s[i] != '/'); }
+            if 0 <= k < i { assert(a[k] == '/'); }
+            if k > i { assert(s[i] != '/'); }
+        }
+        let a2 = a.subrange(i + 1, a.len() as int);
+        assert(s.subrange(0, k) =~= a.subrange(0, i));
+        assert(s.subrange(k + 1, s.len() as int) =~= a2 + seq!['/'] + b);
+        split_of_joined(a2, b);
+        assert(slash_split(s) == seq![a.subrange(0, i)] + (slash_split(a2) + slash_split(b)));
+        assert(seq![a.subrange(0, i)] + (slash_split(a2) + slash_split(b)) =~= (seq![a.subrange(0, i)] + slash_split(a2)) + slash_split(b));
+    }
+}
+
+/// the non-empty pieces, on the characters
+pub open spec fn is_kept_text() -> spec_fn(Seq<char>) -> bool { |p: Seq<char>| p.len() > 0 }
+pub open spec fn kept_text(s: Seq<char>) -> Seq<Seq<char>> { slash_split(s).filter(is_kept_text()) }
+
+/// C03 "Paths that differ only by repeated or trailing slashes are treated identically": the non-empty pieces of
+/// `a/b` are those of `a` followed by those of `b` -- so an extra slash next to a slash, or at either end, adds
+/// nothing (it only adds an empty piece, which is dropped)
+pub proof fn kept_of_joined(a: Seq<char>, b: Seq<char>)
+    ensures kept_text(a + seq!['/'] + b) == kept_text(a) + kept_text(b) // @nonempty_pieces_of_a_slash_b
+{
+    split_of_joined(a, b);
+    Seq::filter_distributes_over_add(slash_split(a), slash_split(b), is_kept_text());
+}
+pub proof fn kept_of_empty()
+    ensures kept_text(Seq::<char>::empty()) == Seq::<Seq<char>>::empty()
+{
+    let e = Seq::<char>::empty();
+    assert(first_slash(e) == -1);
+    assert(slash_split(e) == seq![e]);
+    reveal_with_fuel(Seq::filter, 2);
+    assert(seq![e].drop_last() =~= Seq::<Seq<char>>::empty());
+}
+pub proof fn repeated_and_trailing_slashes_do_not_matter(a: Seq<char>, b: Seq<char>)
+    ensures
+        kept_text(a + seq!['/'] + seq!['/'] + b) == kept_text(a + seq!['/'] + b), // @a_repeated_slash_changes_nothing
+        kept_text(a + seq!['/']) == kept_text(a), // @a_trailing_slash_changes_nothing
+        kept_text(seq!['/'] + a) == kept_text(a), // @a_leading_slash_changes_nothing
+{
+    let e = Seq::<char>::empty();
+    kept_of_empty();
+    // a//b  =  (a/"") / b
+    kept_of_joined(a + seq!['/'] + e, b);
+    kept_of_joined(a, e);
+    kept_of_joined(a, b);
+    assert(a + seq!['/'] + e =~= a + seq!['/']);
+    assert(kept_text(a) + Seq::<Seq<char>>::empty() =~= kept_text(a));
+    // "/" + a = "" / a
+    kept_of_joined(e, a);
+    assert(e + seq!['/'] + a =~= seq!['/'] + a);
+    assert(Seq::<Seq<char>>::empty() + kept_text(a) =~= kept_text(a));
+}
+/// the pieces the function works on (as `&str`s) are these pieces (TRUSTED link: prelude axiom ax_split_is_slash_split)
+pub proof fn kept_pieces_are_the_nonempty_pieces<'a>(path: &'a str)
+    ensures texts(kept_pieces(path)) == kept_text(path@) // @the_function_keeps_exactly_the_nonempty_pieces
+{
+    ax_split_is_slash_split(path);
+    texts_of_filtered(slash_strs(path));
+}
+pub proof fn texts_of_filtered<'a>(ps: Seq<&'a str>)
+    ensures texts(ps.filter(is_kept())) == texts(ps).filter(is_kept_text())
+    decreases ps.len()
+{
+    reveal_with_fuel(Seq::filter, 2);
+    if ps.len() == 0 {
+        assert(texts(ps.filter(is_kept())) =~= texts(ps).filter(is_kept_text()));
+    } else {
+        texts_of_filtered(ps.drop_last());
+        assert(texts(ps).drop_last() =~= texts(ps.drop_last()));
+        assert(texts(ps).last() == ps.last()@);
+        assert(texts(ps.filter(is_kept())) =~= texts(ps).filter(is_kept_text()));
+    }
+}
+
+
+/// the contract of input_path_to_segments (splice/input_path_to_segments.rs), as a predicate
+pub open spec fn segments_contract<'a>(path: &'a str, r: Result<Vec<String>, String>) -> bool {
+    &&& (r is Ok) == (forall|i: int| 0 <= i < kept_pieces(path).len() ==> acceptable((#[trigger] kept_pieces(path)[i])@))
+    &&& r is Ok ==> r->Ok_0@.len() == kept_pieces(path).len()
+            && (forall|i: int| 0 <= i < r->Ok_0@.len() ==> pct_decode(kept_pieces(path)[i]@) == Some((#[trigger] r->Ok_0@[i])@))
+}
+/// C03, first sentence, end to end: two paths with the same non-empty pieces (e.g. differing only by repeated or
+/// trailing slashes: repeated_and_trailing_slashes_do_not_matter) are both refused or both yield the same segments
+pub proof fn same_nonempty_pieces_same_outcome<'a, 'b>(p: &'a str, q: &'b str, rp: Result<Vec<String>, String>, rq: Result<Vec<String>, String>)
+    requires kept_text(p@) == kept_text(q@), segments_contract(p, rp), segments_contract(q, rq)
+    ensures
+        (rp is Ok) == (rq is Ok), // @treated_identically_refusal
+        rp is Ok ==> rp->Ok_0@.len() == rq->Ok_0@.len() && forall|i: int| 0 <= i < rp->Ok_0@.len() ==> (#[trigger] rp->Ok_0@[i])@ == rq->Ok_0@[i]@, // @treated_identically_segments
+{
+    kept_pieces_are_the_nonempty_pieces(p);
+    kept_pieces_are_the_nonempty_pieces(q);
+    let kp = kept_pieces(p);
+    let kq = kept_pieces(q);
+    assert(texts(kp) == texts(kq));
+    assert(kp.len() == kq.len()) by { assert(texts(kp).len() == texts(kq).len()); }
+    assert forall|i: int| 0 <= i < kp.len() implies (#[trigger] kp[i])@ == kq[i]@ by {
+        assert(texts(kp)[i] == texts(kq)[i]);
+    }
+    if rp is Ok {
+        assert forall|i: int| 0 <= i < kq.len() implies acceptable((#[trigger] kq[i])@) by { assert(acceptable(kp[i]@)); }
+        assert forall|i: int| 0 <= i < rp->Ok_0@.len() implies (#[trigger] rp->Ok_0@[i])@ == rq->Ok_0@[i]@ by {
+            assert(pct_decode(kp[i]@) == Some(rp->Ok_0@[i]@));
+            assert(pct_decode(kq[i]@) == Some(rq->Ok_0@[i]@));
+        }
+    }
+    if rq is Ok {
+        assert forall|i: int| 0 <= i < kp.len() implies acceptable((#[trigger] kp[i])@) by { assert(acceptable(kq[i]@)); }
+    }
+}
+
 proof fn sentinel_v12_prelude_consistent()
     ensures false
 {
